@@ -17,6 +17,7 @@ EXPLANATION = (
     "later assignment by a callee or closure cannot change a value already read; (SHARED-CAPTURE) closures refer to captured "
     "variables by their own V<id> name (no copy at closure creation), so closures of one activation share them."
     ' (IRP-order guarded arms) a call is materialised by every emitter arm, guarded ones included.'
+    ' (IRP-guarded) no guarded arm of the lowering gives a construct a second lowering (a self tail call turned into parameter assignments and a jump).'
 )
 UNDECIDED = "run-time behaviour of preamble.lua helpers beyond GLOBAL-LEAK (a global temporary of a higher-order helper must not be held across a callback)."
 
